@@ -100,6 +100,31 @@ impl<I: Iterator> Iterator for Hinted<I> {
     }
 }
 
+/// An iterator that is not fused: after its last item it answers None once
+/// and then comes up with one more item. (`map_while`, `scan`, `from_fn`,
+/// channel `try_iter` behave like this.) What a `for` loop - the streaming
+/// reference - sees ends at the first None.
+struct Resuming<'a, I> {
+    inner: I,
+    extra: Option<&'a Vec<u8>>,
+    ended: bool,
+}
+
+impl<'a, I: Iterator<Item = &'a Vec<u8>>> Iterator for Resuming<'a, I> {
+    type Item = &'a Vec<u8>;
+    fn next(&mut self) -> Option<&'a Vec<u8>> {
+        if !self.ended {
+            let x = self.inner.next();
+            if x.is_none() {
+                self.ended = true;
+            }
+            x
+        } else {
+            self.extra.take()
+        }
+    }
+}
+
 /// a size_hint for an iterator that really yields n items: exact, vague, or
 /// wrong by a little in either bound
 fn some_hint(rng: &mut Rng, n: usize) -> (usize, Option<usize>) {
@@ -193,8 +218,17 @@ fn encode_case(rng: &mut Rng, out: &mut CaseOut) {
         }
         out.tag("encode:shards-at-odd-addresses");
     }
+    // a sixth of the remaining calls: an iterator that is not fused
+    let resuming = flat_off.is_none() && hinted.is_none() && rng.chance(1, 6);
+    let extra_shard = rng.bytes(size);
+    if resuming {
+        out.tag("encode:non-fused-iterator");
+    }
+    let desc = if resuming { format!("{desc}, iterator that yields one more item after its first None") } else { desc };
     let one = guarded(|| {
-        if flat_off.is_some() {
+        if resuming {
+            reed_solomon_simd::encode(k, r, Resuming { inner: cands.iter().filter(|c| c.0).map(|c| c.1), extra: Some(&extra_shard), ended: false })
+        } else if flat_off.is_some() {
             reed_solomon_simd::encode(k, r, spans.iter().map(|(at, len)| &flat[*at..*at + *len]))
         } else if let Some(hint) = hinted {
             reed_solomon_simd::encode(k, r, Hinted { inner: cands.iter().filter(|c| c.0).map(|c| c.1), hint })
